@@ -454,6 +454,30 @@ static void peekOrTake(bool take)
 	}
 	evx(take ? "tk" : "pk", e, v, 0, r ? 1 : 0, u);
 }
+#if W_ARG != 2
+// takeEvent, then dispatch(queuedEvent) of what was taken (the QueuedEvent is the caller's object and lives across the dispatch)
+static void takeDispatch()
+{
+	int u = 0, v = 0, e = 0, after = 0; bool r, threw = false;
+	{
+		Q::QueuedEvent qe;
+		r = q->takeEvent(&qe);
+		if(r) {
+			u = payloadOf(qe).uid; v = payloadOf(qe).v; e = keyToInt(qe.event);
+			evx("td", e, v, 0, 1, u);
+			try { q->dispatch(qe); }
+			catch(const Thrown &) { threw = true; }
+			catch(const Fault &) { threw = true; }
+			catch(const std::bad_alloc &) { threw = true; }
+			after = payloadOf(qe).v;
+			if(payloadOf(qe).uid != u) after = -1000;
+		}
+	}
+	if(! r) { evx("td", 0, 0, 0, 0, 0); return; }
+	if(threw) { evx("dx", 0, 0, 0, 0, u); return; }
+	evx("de", 0, after, 0, 0, u);
+}
+#endif
 #endif
 
 static bool step()
@@ -537,6 +561,9 @@ static bool step()
 	else if(k == "pu") { process(4); }
 	else if(k == "pk") { peekOrTake(false); }
 	else if(k == "tk") { peekOrTake(true); }
+#if W_ARG != 2
+	else if(k == "td") { takeDispatch(); }
+#endif
 	else if(k == "cl") { q->clearEvents(); evx("cl", 0, 0, 0, 0, 0); }
 	else if(k == "eq") { bool r = q->emptyQueue(); evx("eq", 0, 0, 0, r ? 1 : 0, 0); }
 	else if(k == "zz") { g_noDrain = true; evx("zz", 0, 0, 0, 0, 0); }
